@@ -286,9 +286,15 @@ def run_extends(ctx, i):
 # (b) prefixes
 
 FUNCS = ["zcverif_dt.p1.up", "zcverif_dt.p1.p2.rev",
-         "zcverif_dt.p1.p2.p3.tag"]
+         "zcverif_dt.p1.p2.p3.tag",
+         # the same relative spelling '.conv' names a different function
+         # under each prefix
+         "zcverif_dt.p1.conv", "zcverif_dt.p1.p2.conv",
+         "zcverif_dt.p1.p2.p3.conv", "zcverif_dt.p1.conv",
+         "zcverif_dt.p1.p2.conv", "zcverif_dt.p1.p2.p3.conv"]
 SECT_FUNCS = ["zcverif_dt.p1.wrap_a", "zcverif_dt.fam.wrap"]
-PREFIXES = ["zcverif_dt", "zcverif_dt.p1", "zcverif_dt.p1.p2"]
+PREFIXES = ["zcverif_dt", "zcverif_dt.p1", "zcverif_dt.p1.p2",
+            "zcverif_dt.p1.p2.p3"]
 
 
 def rel(name, prefix, rng):
@@ -310,6 +316,9 @@ def decorate_prefixes(rng, model):
             if cc["kind"] in ("key", "multikey") and \
                     cc["datatype"] == "string" and rng.random() < 0.6:
                 f = rng.choice(FUNCS)
+                if prefix and prefix + ".conv" in FUNCS and \
+                        rng.random() < 0.5:
+                    f = prefix + ".conv"
                 cc["raw_datatype"] = rel(f, prefix, rng)
                 ce["raw_datatype"] = f
     exp = copy.deepcopy(model)
@@ -405,7 +414,11 @@ def run_schema_extends(ctx, i, dirpath):
     top_dt = model["datatype"]
     # declare key type / datatype on the bases; the extending schema
     # inherits them (or overrides explicitly)
-    mode = rng.choice(["inherit", "inherit", "explicit", "conflict"])
+    mode = rng.choice(["inherit", "inherit", "explicit", "conflict",
+                       "chain", "chain"])
+    if mode == "chain" and k < 2:
+        k = 2
+        parts = split_schema(rng, model, k)
     shutil.rmtree(dirpath, ignore_errors=True)
     os.makedirs(os.path.join(dirpath, "bases"))
     names = []
@@ -413,6 +426,16 @@ def run_schema_extends(ctx, i, dirpath):
         part = parts[bi]
         bm = {"keytype": top_kt, "datatype": top_dt, "handler": None,
               "types": part["types"], "children": part["children"]}
+        if mode == "chain" and bi > 0:
+            # only the root base declares key type and datatype; every
+            # base after it extends the previous one and inherits them
+            bm["keytype"] = None
+            bm["datatype"] = None
+            prev = names[bi - 1]
+            here = "bases/" if bi % 2 else ""
+            bm["extends_attr"] = ("../" + prev) if here and \
+                not prev.startswith("bases/") else \
+                (prev[len("bases/"):] if here else prev)
         if mode == "conflict" and k >= 2 and bi == 0:
             bm["keytype"] = "identifier" if top_kt != "identifier" \
                 else "basic-key"
@@ -436,7 +459,8 @@ def run_schema_extends(ctx, i, dirpath):
           "handler": None, "types": own["types"],
           "children": own["children"],
           # ZConfig reads the listed bases last-first
-          "extends_attr": " ".join(reversed(names))}
+          "extends_attr": " ".join(reversed(names))
+          if mode != "chain" else names[-1]}
     if mode == "explicit":
         om["extra_attrs"] = {"keytype": top_kt}
     main = os.path.join(dirpath, "main.xml")
@@ -486,7 +510,16 @@ def run_components(ctx, i, space):
         tb[0]["extends"] = ta[0]["name"]
         tb[0]["children"] = []
     tc = packages.gen_component_types(rng, model, "pc", 1)
-    space.write(pa, {"component.xml": packages.component_xml(ta, base)})
+    cyclic = rng.random() < 0.3
+    if cyclic:
+        # pa imports pb and pb imports pa: whichever is entered first, the
+        # other one is read from inside it; no cross-package extends
+        for t in tb:
+            if t.get("extends") and not t["extends"].startswith("pb"):
+                t["extends"] = None
+                t["children"] = [dict(ta[0]["children"][0])]
+    space.write(pa, {"component.xml": packages.component_xml(
+        ta, base, [pb] if cyclic else [])})
     space.write(pb, {"component.xml": packages.component_xml(tb, base,
                                                              [pa])})
     space.write(pc, {"component.xml": packages.component_xml(tc, base,
@@ -505,7 +538,8 @@ def run_components(ctx, i, space):
     # expansion: everything defined in place once, in definition order
     reach = set()
     for p in imports:
-        reach.update({pa: [pa], pb: [pa, pb], pc: [pa, pb, pc]}[p])
+        reach.update({pa: [pa, pb] if cyclic else [pa], pb: [pa, pb],
+                      pc: [pa, pb, pc]}[p])
     em = copy.deepcopy(m)
     extra = []
     for p, ts in ((pa, ta), (pb, tb), (pc, tc)):
@@ -517,8 +551,8 @@ def run_components(ctx, i, space):
     x2 = family.render_xml(em)
     s1, e1 = load_schema_text(x1)
     s2, e2 = load_schema_text(x2)
-    compare_pair(ctx, "components", "imports=%d,reach=%d" % (len(imports),
-                                                            len(reach)),
+    compare_pair(ctx, "components", "imports=%d,reach=%d%s" % (
+        len(imports), len(reach), ",cyclic" if cyclic else ""),
                  s1, e1, s2, e2, family.Resolved(em),
                  {"family": "components", "composed": x1, "expanded": x2,
                   "packages": {pa: packages.component_xml(ta, base),
